@@ -257,12 +257,12 @@ def run(ctx, parts=("spline", "ledger", "nm")):
             recs = spline_model(ctx)
             spline_replay(ctx, recs, exe, rd)
         if "ledger" in parts:
-            spline_ledger(ctx, exe, rd, 300 if ctx.quick else 4000)
+            spline_ledger(ctx, exe, rd, 300 if ctx.quick else 20000)
         if "nm" in parts:
             if ctx.quick:
                 nm_check(ctx, rd, 36, 180)
             else:
-                nm_check(ctx, rd, 60, 2500)
+                nm_check(ctx, rd, 100, 6000)
         ctx.cov["rule"] = ("replay: every integer knot set TLC enumerated (3..5 knots) x 9 scale decades, keyed (knot count, decade, knot set), non-trivial = decade # 1e0 or "
                            "irregular gaps; ledger: seeded random knot sets keyed (knot count 3..40, spacing decade, uniform/irregular class); Nelder-Mead: seeded strictly "
                            "convex quadratics keyed (dimension, iteration limit, run id)")
